@@ -85,3 +85,9 @@ pub fn shorten(s: &str, head: usize, tail: usize) -> String {
     let t: String = s.chars().skip(n - tail).collect();
     format!("{}…{}", h, t)
 }
+
+/// upper bound on the number of `update` calls any driver loop of the harness makes for an input of `len` bytes (the
+/// decoder needs at most a handful of calls per byte: C07); beyond it the loop stops and reports `SPIN`
+pub fn spin_budget(len: usize) -> usize {
+    16 * len + 4096
+}
